@@ -28,6 +28,9 @@ HARNESS = {
             [bytes([1]) + "a".encode("utf-16-le") + bytes([2]) + "bc".encode("utf-16-le") + b"\x05", bytes([2]) + "xy".encode("utf-16-le") + bytes([0]) + b"\x06",
              bytes([0]) + bytes([3]) + "pqr".encode("utf-16-le") + b"\x07"]),
 }
+HARNESS["sizeof"] = ("typedef uint16 word_t; struct W { word_t w; uint8 z; }; struct S { uint8 n; uint8 a[n * sizeof(uint32)]; uint8 b[n * sizeof(word_t) + sizeof(W)]; uint8 t; };",
+                     [bytes([1]) + bytes(range(0x10, 0x14)) + bytes(range(0x20, 0x25)) + b"\x07", bytes([2]) + bytes(range(0x30, 0x38)) + bytes(range(0x40, 0x47)) + b"\x08",
+                      bytes([0]) + bytes(range(0x50, 0x53)) + b"\x09"])
 PAIRS = ("parse/parse", "parse/dumps", "dumps/dumps", "parse/deref")
 
 
